@@ -274,9 +274,9 @@ class LabelDomain:
         for x in t.args:
             yield from self._walk(x, clean, seen)
 
-    def sinks_in(self, t: T, clean0: frozenset):
-        """Yield (term, description) for label sinks that are sub-terms of t."""
-        for s, clean in self._walk(t, clean0, set()):
+    def sinks_in(self, t: T, clean0: frozenset, seen=None):
+        """Yield (term, description) for label sinks that are sub-terms of t (each (term, refinement) once per `seen`)."""
+        for s, clean in self._walk(t, clean0, seen if seen is not None else set()):
             v = lambda x, _c=clean: self.val(x, _c)  # noqa: E731
             op, a = s.op, s.args
             if op in ("binop", "cmp") and a[0] not in ("is", "is not", "in", "not in"):
@@ -537,10 +537,11 @@ def find_sinks(r: Result, sources: dict):
     dom.learn_fields(r.events)
     out = []
     seen = set()
+    walked = set()
     for e in r.events:
         clean = clean_set(e, sources)
         for t in event_terms(e):
-            for s, why in dom.sinks_in(t, clean):
+            for s, why in dom.sinks_in(t, clean, walked):
                 k = (s.uid, clean)
                 if k in seen:
                     continue
